@@ -41,7 +41,9 @@ USER_GRIDS = [(0.0, 14.0, 0.1), (0.0, 14.0, 0.05), (0.0, 14.0, 0.2), (0.0, 14.0,
               (4.0, 10.0, 0.3), (0.0, 14.0, 0.7), (0.0, 12.0, 0.15), (6.0, 8.0, 0.02), (0.0, 14.0, 2.0),
               # grids whose points need a third decimal
               (2.0, 9.0, 0.125), (6.0, 8.0, 0.025), (6.5, 7.5, 0.005), (0.125, 10.125, 0.5), (0.0, 14.0, 0.375),
-              (3.0, 4.0, 0.001), (0.005, 12.005, 0.25)]
+              (3.0, 4.0, 0.001), (0.005, 12.005, 0.25),
+              # maxima that are not grid points (the grid ends below them, never beyond)
+              (0.0, 14.0, 0.3), (0.0, 14.0, 0.75), (3.0, 10.0, 0.4), (0.0, 14.0, 0.9), (2.0, 9.0, 0.6), (0.0, 10.0, 3.0)]
 
 
 def setup(tier):
@@ -56,6 +58,9 @@ def random_grid(rng):
     mn = rng.choice((0.0, 0.0, 0.0, 1.0, 2.0, 4.0, 0.5, 0.125, 1.005))
     nmax = int((16.0 - mn) / step)
     n = rng.randrange(3, max(4, min(141 if step >= 0.05 else 400, nmax)))
+    if rng.random() < 0.25:
+        # a maximum between two grid points: 0.2 .. 0.9 of a step beyond the last one
+        return (mn, round(mn + (n + rng.choice((0.2, 0.5, 0.6, 0.9))) * step, 6), step)
     return (mn, round(mn + n * step, 6), step)
 
 
